@@ -13,8 +13,8 @@ All of it holds for **every** list of worker behaviours, those the daemon is not
 signal is recorded in the log with the tag `"!"` (`Obs.sig p sg st "!"`): it is no delivery — the entries the theorems
 speak of are the delivered ones (`via = ""`), a refused SIGKILL needs no justification and a refused stop signal is no
 evidence `Began`.  A `kill_process` whose first signal is refused ends with `AccessDenied` before it marks its worker
-`stopping` (no loop is ever pending for it); one whose SIGKILL is refused ends with `AccessDenied` and leaves the flag set
-(finding F34) — no loop is pending then either, so the frame invariant and the uniqueness of the loop are untouched.
+`stopping` (no loop is ever pending for it); one whose SIGKILL is refused clears the flag and ends with `AccessDenied`
+(since fix 60e14d0; the former finding F34) — no loop is pending then either, so the frame invariant and the uniqueness of the loop are untouched.
 
 * `C03_run_signal_invariant` — the invariant `SI` (Core/SigDefs.lean) holds in every reachable state;
 * `C03_run_pending_kill_loop` — **the frame invariant**: every suspended `kill_process` (a frame
